@@ -30,6 +30,9 @@ inline std::vector<const DomInfo *> select_domains(const std::string &sel) {
   if (sel == "any" || sel == "all") {
     for (auto &d : roster())
       if (!d.machine) out.push_back(&d); // machine-integer domains have their own engine
+  } else if (sel == "backward") {
+    for (auto &d : roster())
+      if (d.backward) out.push_back(&d);
   } else if (sel == "core") {
     for (auto n : CORE_DOMS)
       if (find_domain(n)) out.push_back(find_domain(n));
@@ -251,5 +254,6 @@ inline std::string stmt_tag(const Stmt &s) {
 void run_fwd_case(Ctx &ctx, int64_t kase, Rng &r, const DomInfo &d);
 void run_pool_case(Ctx &ctx, int64_t kase, Rng &r, const DomInfo &d);
 void run_chain_case(Ctx &ctx, int64_t kase, Rng &r, const DomInfo &d);
+void run_bwd_case(Ctx &ctx, int64_t kase, Rng &r, const DomInfo &d);
 
 } // namespace vf
